@@ -43,13 +43,20 @@ def cases(ctx):
         setup('mainnet')
         k = PrivateKey(secret_exponent=d)
         if k.get_public_key().to_bytes()[0] == 0: lz.append(d)
-    for d in secrets + lz:
+    # x coordinates whose first byte looks like a SEC prefix (02, 03, 04) or is zero: x-only parsing must not read it as one
+    pre = []
+    d = 1; want = {2, 3, 4}
+    while want and d < 5000:
+        d += 1
+        b0 = PrivateKey(secret_exponent=d).get_public_key().to_bytes()[0]
+        if b0 in want: want.discard(b0); pre.append(d)
+    for d in secrets + lz + pre:
         db = d.to_bytes(32, 'big')
         for net, c in [(rng.choice(NETS), rng.choice([0, 1])) for _ in range(3)]:
             ctx.count('wif-' + net)
             yield Case(f'wif_enc {np(net)} {hx(db)} {c}', 'ms', nontrivial=net != 'testnet' or d in (1, N - 1), tag='wif',
                        spec=lambda ans, net=net, db=db, c=c: (f's:wif_spec {np(net)} {hx(db)} {c}', ans))
-        yield Case(f'pub_of {hx(db)}', 'ms', nontrivial=d in lz or d < 3 or d > N - 3, tag='pub',
+        yield Case(f'pub_of {hx(db)}', 'ms', nontrivial=d in lz or d in pre or d < 3 or d > N - 3, tag='pub',
                    spec=lambda ans, db=db: (f'secp_mul {hx(db)}', ans))
         # round trip through the three encodings
         yield Case(f'pub_roundtrip {hx(db)}', 'ms', nontrivial=True, tag='sec')
@@ -82,6 +89,12 @@ def cases(ctx):
         muts.append(('short-key', base58check.b58encode(raw + hashlib.sha256(hashlib.sha256(raw).digest()).digest()[:4]).decode()))
         raw = pfx(net) + bytes(32)
         muts.append(('zero-key', base58check.b58encode(raw + hashlib.sha256(hashlib.sha256(raw).digest()).digest()[:4]).decode()))
+        # the very same (just accepted) string after the configured network changed to one with another version byte
+        onet = rng.choice([x for x in NETS if pfx(x) != pfx(net)])
+        yield Case(f'wif_dec {np(net)} {sh(wif)}', 'ms', nontrivial=True, tag='wifdec-valid-first',
+                   spec=lambda ans, net=net, w=wif: (f's:wif_dec_spec {np(net)} {sh(w)}', ans))
+        yield Case(f'wif_dec {np(onet)} {sh(wif)}', 'ms', nontrivial=True, tag='wifdec-same-string-other-net',
+                   spec=lambda ans, onet=onet, w=wif: (f's:wif_dec_spec {np(onet)} {sh(w)}', ans))
         for kind, w in muts:
             ctx.count('wifdec-' + kind)
             yield Case(f'wif_dec {np(net)} {sh(w)}', 'ms', nontrivial=kind != 'valid', tag='wifdec-' + kind,
